@@ -44,9 +44,15 @@ func (this *C40Encoder) encode(context *EncoderContext) error {
 			removed := make([]byte, 0)
 			if (len(buffer)%3) == 2 && available != 2 {
 				lastCharSize, buffer, removed = this.backtrackOneCharacter(context, buffer, removed, lastCharSize)
+				if available, e = c40Available(context, buffer); e != nil {
+					return e
+				}
 			}
 			for (len(buffer)%3) == 1 && (lastCharSize > 3 || available != 1) {
 				lastCharSize, buffer, removed = this.backtrackOneCharacter(context, buffer, removed, lastCharSize)
+				if available, e = c40Available(context, buffer); e != nil {
+					return e
+				}
 			}
 			break
 		}
@@ -72,9 +78,24 @@ func (this *C40Encoder) backtrackOneCharacter(context *EncoderContext,
 	buffer = buffer[:count-lastCharSize]
 	context.pos--
 	c := context.GetCurrentChar()
-	lastCharSize, removed = this.encodeChar(c, removed)
+	_, removed = this.encodeChar(c, removed)
 	context.ResetSymbolInfo() //Deal with possible reduction in symbol size
+	// the size of the character that now ends the buffer (not of the one just removed)
+	lastCharSize = 0
+	if len(buffer) > 0 {
+		lastCharSize, _ = this.encodeChar(context.msg[context.pos-1], nil)
+	}
 	return lastCharSize, buffer, removed
+}
+
+// c40Available returns the number of codewords left in the symbol after the complete triplets of buffer.
+func c40Available(context *EncoderContext, buffer []byte) (int, error) {
+	curCodewordCount := context.GetCodewordCount() + (len(buffer)/3)*2
+	e := context.UpdateSymbolInfoByLength(curCodewordCount)
+	if e != nil {
+		return 0, gozxing.WrapWriterException(e)
+	}
+	return context.GetSymbolInfo().GetDataCapacity() - curCodewordCount, nil
 }
 
 func c40WriteNextTriplet(context *EncoderContext, buffer []byte) []byte {
